@@ -109,8 +109,13 @@ impl CheckpointStorage {
     async fn find_by_id_or_name(id_or_name: &str, blob: &BlobStore) -> Result<String> {
         let checkpoints = Self::list(blob).await?;
 
+        // An id names exactly one checkpoint: it wins over a (newer) checkpoint that merely
+        // carries the same string as its name, which would otherwise make this one unreachable.
+        if let Some(cp) = checkpoints.iter().find(|cp| cp.id == id_or_name) {
+            return Ok(cp.artifact_id.clone());
+        }
         for cp in checkpoints {
-            if cp.id == id_or_name || cp.name == id_or_name {
+            if cp.name == id_or_name {
                 return Ok(cp.artifact_id);
             }
         }
